@@ -191,7 +191,7 @@ def r3(idx, rep):
         it = Interp(idx, types={"self": "Reference"}, unknown_calls="residual",
                     handlers={"self._get_reference": lambda i, c, r, a, k, tracking=tracking: {"paths_name": "P", "name": "h", "tracking": tracking, "data_type": "headers"},
                               "rm.has_lines": lambda i, c, r, a, k: a[0] == "P", "rm.get_number_of_results": lambda i, c, r, a, k, nres=nres: nres,
-                              "rm.get_named_results": lambda i, c, r, a, k: [Obj("r0"), Obj("r1")], "rm.get_specific_named_result": lambda i, c, r, a, k: Obj("SPEC") if a == ["P", "two"] else None},
+                              "rm.get_named_results": lambda i, c, r, a, k, nres=nres: [Obj(f"r{j}") for j in range(nres)], "rm.get_specific_named_result": lambda i, c, r, a, k: Obj("SPEC") if a == ["P", "two"] else None},
                     domains={"self.matcher.csvpath.csvpaths.results_manager": [Obj("rm")]})
         ps = it.run_all(fq)
         got = ps[0].result
